@@ -41,6 +41,10 @@ def run(ctx: Ctx) -> None:
         re_ = run_tlc("MC_FnDedup", f"MC_FnDedupEmit_{u}.cfg", timeout=1200, workers=1, coverage=False)
         cfgs += parse_tlc_values(re_.output.splitlines())
         cleanup_tlc(re_)
+    rp = run_tlc("MC_FnDedup", "MC_FnDedupDevPerTarget.cfg", timeout=600, coverage=False)
+    if rp.violated != "ResolvedSound":
+        raise MachineryError(f"self test: name counters keyed by target class should violate ResolvedSound, got {rp.violated!r}")
+    cleanup_tlc(rp)
     rd = run_tlc("MC_FnDedup", "MC_FnDedupDev.cfg", timeout=600, coverage=False)
     ctx.extra["selftest_deviations_rejected"] = bool(rd.violated)
     if not rd.violated:
@@ -65,7 +69,8 @@ def run(ctx: Ctx) -> None:
         sib = base and a["scope"] == b["scope"] == "body" and a["kw"] in ("none", "s1") and b["kw"] in ("none", "s1")
         mixed = base and {a["scope"], b["scope"]} == {"top", "body"} and a["kw"] == b["kw"] == "none"
         sig = a["inst"] == b["inst"] and a["kw"] == b["kw"] == "none" and a["scope"] == b["scope"] == "top" and (a["shp"], a["dt"]) != (b["shp"], b["dt"])
-        return kwo or sib or mixed or sig
+        homonym = c["tab"] == "homonym" and a["inst"] != b["inst"] and a["kw"] == b["kw"] == "none" and base
+        return kwo or sib or mixed or sig or homonym
     musts = [c for c in two if must(c)]
     rest = [c for c in two if not must(c)]
     pick = musts[: (60 if ctx.quick else 10**6)] + [c for c in rest if interesting(c)][: (50 if ctx.quick else 1500)] + [c for c in rest if not interesting(c)][: (8 if ctx.quick else 100)]
@@ -73,6 +78,8 @@ def run(ctx: Ctx) -> None:
     items = []
     for i, c in enumerate(pick):
         kinds = KINDS if not ctx.quick else [KINDS[i % len(KINDS)], KINDS[(i + 2) % len(KINDS)]]
+        if c["tab"] == "homonym":
+            kinds = ["plain"]      # homonymous decorated classes are built for the plain kind
         for kd in kinds:
             items.append({"cfg": c, "kind": kd})
     n = 14
@@ -98,4 +105,4 @@ def run(ctx: Ctx) -> None:
     ctx.extra["replay_status"] = stats
     ctx.cov["traces_validated_against_impl"] = done
     ctx.cov["rule"] = "one evaluation = one call-site configuration x target kind exported decorated and undecorated and executed in ORT; non-trivial = the sites compute different functions or share a definition"
-    ctx.assumptions += ["JAX eager on the undecorated twin classes is the reference", "two tensor shapes, two dtypes, five keyword-argument forms, three instance tables"]
+    ctx.assumptions += ["JAX eager on the undecorated twin classes is the reference", "two tensor shapes, two dtypes, seven keyword-argument forms, four instance tables (incl. homonymous classes)"]
